@@ -1091,6 +1091,7 @@ htp_status_t htp_connp_RES_LINE(htp_connp_t *connp) {
                     return HTP_OK;
                 }
                 connp->out_tx->response_content_encoding_processing = HTP_COMPRESSION_NONE;
+                HTP_VERIF_TRACE(6, connp, connp->out_tx, (long) len);
 
                 connp->out_current_consume_offset = connp->out_current_read_offset;
                 htp_status_t rc = htp_tx_res_process_body_data_ex(connp->out_tx, data, len + chomp_result);
@@ -1170,6 +1171,7 @@ htp_status_t htp_connp_RES_FINALIZE(htp_connp_t *connp) {
     if (htp_treat_response_line_as_body(data, bytes_left)) {
         // Interpret remaining bytes as body data
         htp_log(connp, HTP_LOG_MARK, HTP_LOG_WARNING, 0, "Unexpected response body");
+        HTP_VERIF_TRACE(7, connp, connp->out_tx, (long) bytes_left);
         htp_status_t rc = htp_tx_res_process_body_data_ex(connp->out_tx, data, bytes_left);
         htp_connp_res_clear_buffer(connp);
         return rc;
